@@ -421,6 +421,9 @@ def fuzz(req):
             if raw is not None:
                 r["raw_hex"] = raw.hex()
         out.append(r)
+    if _TMP:
+        import shutil
+        shutil.rmtree(_TMP.pop(), ignore_errors=True)
     return out
 
 
